@@ -128,19 +128,13 @@ Proof.
   congruence.
 Qed.
 
-(* an invisible revision with a wildcard holder: only the default collection, only a document without
-   channels, only a wildcard that comes through a role *)
-Lemma invisible_with_star : forall named u cs,
-  can_see_any named u cs = false -> has_star u = true ->
-  named = false /\ cs = [] /\ ~ In star (chans_of (u_self u)).
+(* a wildcard holder sees every revision (since /repo a58a51d also a document without channels in the default
+   collection through a role's wildcard) *)
+Lemma invisible_without_star : forall named u cs,
+  can_see_any named u cs = false -> has_star u = false.
 Proof.
-  intros named u cs Hns Hst. apply has_star_spec in Hst.
-  destruct cs as [|c r].
-  - destruct named.
-    + exfalso. assert (can_see_any true u [] = true) by (apply can_see_any_spec_empty_named; exact Hst). congruence.
-    + repeat split. intros H. apply (can_see_any_spec_empty_default u) in H. congruence.
-  - exfalso. assert (can_see_any named u (c :: r) = true).
-    { apply can_see_any_spec_nonempty; [congruence | right; exact Hst]. } congruence.
+  intros named u cs Hns. destruct (has_star u) eqn:Hst; [|reflexivity].
+  apply has_star_spec in Hst. rewrite (star_sees_all named u cs Hst) in Hns. discriminate.
 Qed.
 
 (* the listing never carries the body of an invisible revision, whatever the flags *)
@@ -179,23 +173,14 @@ Proof.
   intros named nwe u rv f Hns Hk. unfold alldocs_row, decide1x. rewrite Hk, Hns. reflexivity.
 Qed.
 
-(* the remaining corner: wildcard through a role, default collection, document without channels *)
+(* the listing never carries anything of an invisible revision, whatever the flags: no row, or a 403 row when asked by key *)
 Lemma alldocs_listing_invisible_never_doc : forall named nwe u rv f,
   can_see_any named u (rv_chans rv) = false ->
-  alldocs_row named nwe u rv f = NoRow \/ alldocs_row named nwe u rv f = RowErr 403 \/
-  (exists chs, (alldocs_row named nwe u rv f = RowMeta chs \/ alldocs_row named nwe u rv f = RowDoc [] [] chs) /\
-     has_star u = true /\ rv_chans rv = [] /\ nwe = false /\ named = false).
+  alldocs_row named nwe u rv f = NoRow \/ alldocs_row named nwe u rv f = RowErr 403.
 Proof.
   intros named nwe u rv f Hns. destruct (ad_keys f) eqn:Hk.
-  - right. left. apply alldocs_keys_hides; assumption.
-  - destruct (has_star u) eqn:Hst.
-    + destruct (invisible_with_star named u _ Hns Hst) as (Hn & Hc & _). subst named.
-      unfold alldocs_row. rewrite Hk. cbn [negb]. unfold filter_channels. rewrite Hst, Hc.
-      destruct nwe; [left; reflexivity|]. destruct (ad_include f).
-      * unfold decide1x. rewrite Hc in Hns. rewrite Hc, Hns. cbn [negb].
-        destruct (rv_deleted rv); [right; right; eexists; repeat split; auto | right; left; reflexivity].
-      * right. right. eexists. repeat split; auto.
-    + left. apply alldocs_listing_hides; assumption.
+  - right. apply alldocs_keys_hides; assumption.
+  - left. apply alldocs_listing_hides; [assumption | eapply invisible_without_star; eassumption | assumption].
 Qed.
 
 (* the response of a listing is the same with and without an invisible document: its existence is not revealed *)
